@@ -324,6 +324,32 @@ func c09Check(c c09Case) (fs []rep.Finding) {
 			return n, true
 		})
 		call("Txs.ReadFrom", func() (int64, bool) { var t bt.Txs; n, _ := t.ReadFrom(bytes.NewReader(data)); return n, true })
+		// sources that offer nothing but Read (a connection, a file, an io.LimitReader)
+		for _, mode := range []string{"plain", "1byte"} {
+			mode := mode
+			call("Txs.ReadFrom/"+mode, func() (int64, bool) {
+				under := bytes.NewReader(data)
+				var src io.Reader = plainReader{under}
+				if mode == "1byte" {
+					src = oneByteReader{under}
+				}
+				var t bt.Txs
+				n, err := t.ReadFrom(src)
+				if err == nil && int64(len(data)-under.Len()) != n {
+					fs = append(fs, rep.F("reads-beyond-reported|Txs.ReadFrom/"+mode, fmt.Sprintf("reported %d bytes consumed, took %d from the source", n, len(data)-under.Len())))
+				}
+				return n, true
+			})
+		}
+		call("Tx.ReadFrom/plain", func() (int64, bool) {
+			under := bytes.NewReader(data)
+			var t bt.Tx
+			n, err := t.ReadFrom(plainReader{under})
+			if err == nil && int64(len(data)-under.Len()) != n {
+				fs = append(fs, rep.F("reads-beyond-reported|Tx.ReadFrom/plain", fmt.Sprintf("reported %d bytes consumed, took %d from the source", n, len(data)-under.Len())))
+			}
+			return n, true
+		})
 		call("Input.ReadFrom", func() (int64, bool) { var i bt.Input; n, _ := i.ReadFrom(bytes.NewReader(data)); return n, true })
 		call("Input.ReadFromExtended", func() (int64, bool) {
 			var i bt.Input
@@ -446,7 +472,7 @@ func c09JSONDocs(thorough bool) (docs []string) {
 
 func init() {
 	p := register(&Prop{ID: "C09", Level: "fault_enumeration",
-		Rule: "exhaustive fault-style enumeration in single-threaded child processes (address-space limit, per-case progress marker, death/hang attribution): for each of ~22 (quick) / 26 (thorough) reference serialisations (standard and extended): every truncation length, the whole serialisation followed by surplus bytes, every single-bit flip, every byte replaced by every other value, every length/count field replaced by each of {0xfc,253,65535,65536,2^24,2^31,2^32-1,2^32,2^40,2^63,2^64-1} with the tail kept/cut/one byte, tx-list counts with those claims, every short wide-varint prefix; all strings of length<=5/7 over {00,01,02,EF,FD,FE,FF} bare, after a version and after the extended marker; a product of JSON documents (absent/null/valid/wrong-type/bad-hex per field incl. vin[i].scriptSig, vout[i].scriptPubKey, null elements, lists, fee quotes); each through every binary (10) or JSON (10) decoding entry point. Oracle per call: no panic, no process death, a value or an error (never neither), bytes-consumed <= bytes supplied, TotalAlloc delta <= 64*len+256KiB. distinct_nontrivial = distinct (family, decoder-outcome vector) classes",
+		Rule: "exhaustive fault-style enumeration in single-threaded child processes (address-space limit, per-case progress marker, death/hang attribution): for each of ~22 (quick) / 26 (thorough) reference serialisations (standard and extended): every truncation length, the whole serialisation followed by surplus bytes, every single-bit flip, every byte replaced by every other value, every length/count field replaced by each of {0xfc,253,65535,65536,2^24,2^31,2^32-1,2^32,2^40,2^63,2^64-1} with the tail kept/cut/one byte, tx-list counts with those claims, every short wide-varint prefix; all strings of length<=5/7 over {00,01,02,EF,FD,FE,FF} bare, after a version and after the extended marker; a product of JSON documents (absent/null/valid/wrong-type/bad-hex per field incl. vin[i].scriptSig, vout[i].scriptPubKey, null elements, lists, fee quotes); each through every binary (13, incl. readers that expose only Read) or JSON (10) decoding entry point. Oracle per call: no panic, no process death, a value or an error (never neither), bytes-consumed <= bytes supplied, TotalAlloc delta <= 64*len+256KiB. distinct_nontrivial = distinct (family, decoder-outcome vector) classes",
 	})
 	check := func(th bool, i uint64) []rep.Finding { return c09Check(c09Tab(th).at(i)) }
 	worker.Register(&worker.Space{
